@@ -52,54 +52,62 @@ def r14_1(ctx, R):
                 continue
             d = b
             vf = variant_facts(d, fl)
-            # budget exit?
-            licensed = None
+            # every feasible arrival at the wake needs a licence of its own: the budget's exhausted edge was crossed, or the
+            # latest dequeue reported "inconsistent" (neither empty nor a slot), or a dequeued child was polled in this
+            # iteration; an arrival under the plain "queue empty" outcome spins the task
+            from lib_flow import sensitive_paths
+            budget_edges = set()
+            polls_ = [pb for pb, _, _ in R.child_poll_sites(d)]
             for head, body in d.loops().items():
-                for sb in body:
-                    for tgt, labs in fl.edge_labels(sb).items():
-                        for lab in labs:
-                            if lab[0] == "bool" and lab[1][0] == "binop" and lab[1][1] in ("Gt", "Ge") and lab[2] is True \
-                                    and lab[1][3][0] == "const" and lab[1][2][0] == "multi" and tgt not in body and d.dominates(tgt, bb):
-                                licensed = "budget-exhausted"
+                inside = [p_ for p_ in polls_ if p_ in body]
+                if not inside:
+                    continue
+                fb = c13.find_budget(ctx, R, d, fl, head, body, inside)
+                if fb is not None:
+                    budget_edges.add((fb["sb"], fb["tgt"]))
             for (h2, body2, nbb, tgt, lo, hi) in c13.range_budgets(ctx, d):
-                if d.dominates(tgt, bb):
-                    licensed = "budget-exhausted"
-            if licensed is None:
-                # general budget cell (counting up or down, through a helper): the wake lies behind its exhausted edge
-                from lib_flow import all_arrivals_via_edge
-                polls_ = [pb for pb, _, _ in R.child_poll_sites(d)]
-                for head, body in d.loops().items():
-                    inside = [p_ for p_ in polls_ if p_ in body]
-                    if not inside:
-                        continue
-                    fb = c13.find_budget(ctx, R, d, fl, head, body, inside)
-                    try:
-                        if fb is not None and all_arrivals_via_edge(d, fl, bb, [(fb["sb"], fb["tgt"])]):
-                            licensed = "budget-exhausted"
-                    except RuntimeError:
-                        pass
+                for sb_ in body2:
+                    if tgt in d.normal_succ(sb_) and tgt not in body2:
+                        budget_edges.add((sb_, tgt))
             pops = R.pop_sites(d)
-            for pbb, pt, pfn in pops:
-                dest = place_str(pt["dest"])
-                empties = set(_empty_variants(ctx, R, pt["dest"]["ty"]))
-                here = {v for (p, v) in vf.get(bb, frozenset()) if p == dest}
-                ready = set(_payload(ctx, pt["dest"]["ty"]))
-                if here and not (here & empties) and not (here & ready):
-                    licensed = licensed or "queue-inconsistent"
-                if here & empties:
-                    licensed = None
-                    ctx.ob("R14.1", d, "wake-on-plain-empty@%s" % _site_label(d, bb), False, d.loc(bb), "self-wake on the 'queue empty' arm spins the task")
-            if licensed is None:
-                # any exit that follows a successful dequeue in this iteration leaves work behind: also a reason
-                for pbb, pt, pfn in pops:
-                    dest = place_str(pt["dest"])
-                    here = {v for (p, v) in vf.get(bb, frozenset()) if p == dest}
-                    if here & set(_payload(ctx, pt["dest"]["ty"])) and not (here & set(_empty_variants(ctx, R, pt["dest"]["ty"]))):
-                        licensed = "after-a-dequeued-child-was-polled"
+            licences = set()
+            unlicensed = None
+            on_empty = False
+            arrivals = 0
+            try:
+                for kind_, pth, know in sensitive_paths(d, fl, 2):
+                    for i_, x_ in enumerate(pth):
+                        if x_ != bb:
+                            continue
+                        arrivals += 1
+                        lic = None
+                        if any((pth[j], pth[j + 1]) in budget_edges for j in range(i_)):
+                            lic = "budget-exhausted"
+                        for pbb, pt, pfn in pops:
+                            dest = place_str(pt["dest"])
+                            v_ = know[i_].get(dest)
+                            if v_ is None:
+                                continue
+                            if v_ in set(_empty_variants(ctx, R, pt["dest"]["ty"])):
+                                if lic is None:
+                                    on_empty = True
+                            elif v_ in set(_payload(ctx, pt["dest"]["ty"])):
+                                lic = lic or "after-a-dequeued-child-was-polled"
+                            else:
+                                lic = lic or "queue-inconsistent"
+                        if lic is None:
+                            unlicensed = pth[:i_ + 1]
+                        else:
+                            licences.add(lic)
+            except RuntimeError:
+                unlicensed = []
+            if on_empty:
+                ctx.ob("R14.1", d, "wake-on-plain-empty@%s" % _site_label(d, bb), False, d.loc(bb), "self-wake on the 'queue empty' arm spins the task")
+            licensed = ", ".join(sorted(licences)) if (arrivals and unlicensed is None and not on_empty) else None
             is_task = bb in {x[0] for x in R.task_wake_sites(d)}
             ctx.ob("R14.1", d, "licensed-self-wake@%s" % _site_label(d, bb), licensed is not None and is_task, d.loc(bb),
                    "licence: %s; receiver is the caller's task waker: %s" % (licensed, is_task))
-    ctx.floor("R14.1", "task-wake-sites", n, 2)
+    ctx.floor("R14.1", "task-wake-sites", n, 1)
     for b in ctx.facts.fn_bodies():
         allw = direct_sites(b, RE_WAKE)
         task = {x[0] for x in R.task_wake_sites(b)} if allw else set()
@@ -139,7 +147,7 @@ def r14_1(ctx, R):
                     elif ui != "term" and node["k"] == "assign" and not node["place"]["p"]:
                         work.append(node["place"]["l"])
             ctx.ob("R14.1", b, "ctx.waker()-flows-only-to-register/self-wake@%s" % _site_label(b, bb), ok, b.loc(bb), "sinks: %s" % sinks)
-    ctx.floor("R14.1", "Context::waker-sites", m, 3)
+    ctx.floor("R14.1", "Context::waker-sites", m, 2)
 
 
 def _payload(ctx, ty_key):
@@ -171,10 +179,15 @@ def r14_3(ctx, R):
     ctx.rule("R14.3", "no clone-and-wake-later: no crate struct field of type Waker / Option<Waker>; no call of "
                       "<Waker as Clone>::clone or Waker::clone_from in library code")
     bad = []
+    # the dequeue's own result type may carry the slot's *borrowed* waker (ManuallyDrop<Waker>) out of POP: a transient return
+    # value that only DRAIN consumes, not a stored waker
+    pop_ret = R.pop_fn.locals[0].split("<")[0]
     for p, adt in ctx.facts.adts.items():
         for v in adt["variants"]:
             for f in v["fields"]:
                 if re.search(r"(^|[<( ])core::task::Waker($|[>,) ])", f["ty"]):
+                    if p == pop_ret and f["ty"] == "core::mem::ManuallyDrop<core::task::Waker>":
+                        continue
                     bad.append("%s.%s: %s" % (p, f["name"], f["ty"]))
     ctx.ob("R14.3", "<crate>", "no-Waker-typed-field", not bad, "", str(bad))
     clones = []
